@@ -123,6 +123,30 @@ def f_signed_absent():
     return v is None and out == p, f"absent localOffset (0x7FFF) re-encodes as {hex((out >> 48) & 0xFFFF)}"
 
 
+@finding("C02/absent-date-reencode/126992.date", "C02")
+def f_absent_date():
+    from nmea2000 import pgns
+    p = 1 | (0xF0 << 8) | (0xFFFF << 16) | (1234 << 32)     # systemTime with date = not available
+    m = pgns.decode_pgn_126992(p)
+    try:
+        out = int.from_bytes(pgns.encode_pgn_126992(m), "little")
+    except Exception as e:
+        return False, f"a message with an absent date decodes but cannot be re-encoded: {type(e).__name__}"
+    return out == p, f"re-encoded {hex(out)}"
+
+
+@finding("C02/one-bit-number-reencode/129556.cna", "C02")
+def f_one_bit_encode():
+    from nmea2000 import pgns
+    p = 1 << 26
+    m = pgns.decode_pgn_129556(p)
+    try:
+        out = int.from_bytes(pgns.encode_pgn_129556(m), "little")
+    except Exception as e:
+        return False, f"value 1 of the 1-bit field cna decodes but cannot be re-encoded: {type(e).__name__}: {e}"
+    return (out >> 26) & 1 == 1, f"re-encoded bit {(out >> 26) & 1}"
+
+
 # ---------------------------------------------------------------- C04
 @finding("C04/padding-dependence/130816", "C04")
 def f_padding():
